@@ -154,6 +154,28 @@ func checkFileWrite(c *Ctx, rule, construct string, f *ssa.Function, pathParam i
 			c.bad(rule, construct, wf[0].Pos(), "the file written is not the path parameter: "+short(p.String()))
 			return
 		}
+		// the write happens whenever the data could be produced: a write that is skipped depending on what the
+		// file holds already (its size, its date, its content) leaves the old record in place
+		ftb := newTB(f)
+		pcw := pathCond(ftb, f.Blocks[0], wf[0].Block())
+		for _, at := range pcw.atoms() {
+			looks := ""
+			at.Atom.walk(func(x *Term) {
+				if x.Op == "call" {
+					switch {
+					case x.Name == "os.ReadFile" || x.Name == "io/ioutil.ReadFile" || x.Name == "os.Open":
+						looks = x.Name
+					case strings.HasSuffix(x.Name, "FileInfo.Size") || strings.HasSuffix(x.Name, "FileInfo.ModTime"):
+						// (whether the path is a directory or exists at all is another matter: such a write fails anyway)
+						looks = strings.TrimPrefix(x.Name, "invoke:")
+					}
+				}
+			})
+			if looks != "" && !isErrTest(at.Atom) {
+				c.bad(rule, construct, wf[0].Pos(), "whether the file is written depends on what "+looks+" reports about the file that is already there ("+short(at.Atom.String())+"): a record that differs from the old one without changing that stays unwritten, and the old record is read back")
+				return
+			}
+		}
 		c.cmpTerm(rule, construct, wf[0].Pos(), d, wantData, "WriteFile(path, "+wantData+", perm): whole output, file truncated", "data written to the file")
 		return
 	}
@@ -666,4 +688,19 @@ func escapingUse(v ssa.Value, depth int) string {
 		}
 	}
 	return ""
+}
+
+
+// isErrTest: the atom compares an error value with nil.
+func isErrTest(t *Term) bool {
+	if t == nil || !(t.isBin("==") || t.isBin("!=")) {
+		return false
+	}
+	for k := 0; k < 2; k++ {
+		o, e := t.Args[k], t.Args[1-k]
+		if o.Op == "const" && strings.HasPrefix(o.Name, "nil") && e.V != nil && tname(e.V.Type()) == "error" {
+			return true
+		}
+	}
+	return false
 }
